@@ -11,7 +11,7 @@
    clause 1  unique     identifying index: no key is reported by two holders
    clause 2  range      every key in use lies in the configured range
    clause 3  frame      an operation on some holders leaves every other holder's keys as they were
-   clause 4  release    after a release the holder has no key and its old keys are free
+   clause 4  release    after a release (that was not refused) the holder has no key and its old keys are free
    clause 5  reusable   an allocation is refused only if every candidate key is held by someone else
    clause 6  return     a returned key is the key the holder now reports
    clause 7  atomic     a refused operation changes no mapping
@@ -110,7 +110,9 @@ Definition accept (ss : sstate) (o : aop) (r : obs) : sstate + N :=
                | _ => a_touch o end in
   if negb (all2 (frame touch) prev now) then inr 3
   else if negb (match a_kind o with
-                | KRelease h => all2 (released h) prev now
+                | KRelease h => match o_ret r with
+                                | RErr _ => true              (* a refused release releases nothing *)
+                                | _ => all2 (released h) prev now end
                 | KReleaseKey k => match lookup (srev (snap0 prev)) k with
                                    | Some h => all2 (released h) prev now
                                    | None => true end
@@ -147,8 +149,7 @@ Definition optN_eqb (a b : option N) : bool :=
   match a, b with Some x, Some y => x =? y | None, None => true | _, _ => false end.
 Definition snap_eqb (a b : snap) : bool :=
   plist_eqb (sfwd a) (sfwd b) && plist_eqb (srev a) (srev b) && optN_eqb (stot a) (stot b).
-Definition obs_eqb (a b : obs) : bool :=
-  ret_eqb (o_ret a) (o_ret b) && all2 snap_eqb (o_snaps a) (o_snaps b) && all2 ret_eqb (o_mid a) (o_mid b).
+Definition obs_eqb (a b : obs) : bool := ret_eqb (o_ret a) (o_ret b) && all2 snap_eqb (o_snaps a) (o_snaps b).
 
 (* ---- circuit-id keys: the monitor remembers every (circuit-id, key) pair it has seen ----
    clause 10  key shape       the key has exactly 32 bytes
